@@ -1,11 +1,12 @@
 (* ProofsWf.v — the well-formedness that the termination theorem assumes is an invariant of the registry:
-   it holds after every history whose registrations never give one result-object field both a name and a
-   group. *)
+   it holds after every history. *)
 From Godi Require Import Base Model Check ProofsRegistry ProofsTerm.
 
-Definition field_ok (f : rfield) : bool := (f_name f =? 0) || (f_group f =? 0).
-Definition reg_ok (r : reg) : bool :=
-  match r_form r with FResult _ _ fs _ => forallb field_ok fs | _ => true end.
+(* (addService itself rejects a result-object field that carries both a name and a group; nothing is asked of the
+   registrations any more, the predicate is kept for the shape of the statements) *)
+Definition reg_ok (r : reg) : bool := true.
+Lemma reg_ok_true r : reg_ok r = true. Proof. reflexivity. Qed.
+Global Opaque reg_ok.
 
 Definition member_bound (c : coll) (d : desc) : Prop :=
   in_services d = false -> exists i, ds_key d = KIdx i /\ i <= length (group_members c (ds_ty d) (ds_grp d)).
@@ -46,7 +47,7 @@ Proof.
   (* the (type,key) table branch *)
   assert (Hsvc : match find_service c (ds_ty d) (ds_key d) with Some _ => inr EAlready | None => inl (c ++ [d]) end = inl c' ->
                  ds_grp d = 0 -> J c').
-  { destruct (find_service c (ds_ty d) (ds_key d)) eqn:Hf; [discriminate|]. intros E Hg0; inversion E; subst. repeat split.
+  { destruct (find_service c (ds_ty d) (ds_key d)) eqn:Hf; [discriminate|]. intros E Hg0; inversion E; subst. split; [|split; [|split; [|split]]].
     - apply NoDup_map_app_one; [exact Hnd|]. intros Hin. apply in_map_iff in Hin. destruct Hin as [d0 [He Hd0]].
       unfold ds_ident in He.
       assert (Ht : ds_ty d0 = ds_ty d) by congruence. assert (Hk : ds_key d0 = ds_key d) by congruence.
@@ -65,7 +66,7 @@ Proof.
       apply Nat.eqb_neq in Hg. intros E; inversion E; subst. clear E.
       set (n := length (group_members c (ds_ty d) (ds_grp d))).
       set (m := mkDesc (ds_ty d) (KIdx (S n)) (ds_grp d) (ds_reg d) (ds_out d) (ds_call d)).
-      repeat split.
+      split; [|split; [|split; [|split]]].
       * apply NoDup_map_app_one; [exact Hnd|]. intros Hin. apply in_map_iff in Hin. destruct Hin as [d0 [He Hd0]].
         unfold ds_ident, m in He; cbn in He.
         assert (Ht : ds_ty d0 = ds_ty d) by congruence. assert (Hk0 : ds_key d0 = KIdx (S n)) by congruence.
@@ -105,22 +106,21 @@ Lemma add_steps_pre r v : guards_ok r -> Forall step_pre (add_steps r v).
 Proof.
   intros (Hn & Hv & Hok).
   assert (Hbase : forall t i, pre_ok (mkDesc t (match r_name r with 0 => (if is_void r then KVoid v else KNone) | n => KName n end) (r_group r) r i v)).
-  { intros t i. unfold pre_ok, in_services; cbn [ds_key ds_grp ds_reg]. repeat split; [| |exact Hok].
+  { intros t i. unfold pre_ok, in_services; cbn [ds_key ds_grp ds_reg]. split; [|split; [|exact Hok]].
     - destruct (r_name r); [destruct (is_void r)|]; reflexivity.
     - intros Hk. destruct (r_name r) eqn:En; [|apply Hn; discriminate]. destruct (is_void r); [apply Hv; reflexivity|congruence]. }
   unfold add_steps. destruct (r_form r) as [t|io ps rets er|io ps fs er] eqn:Ef.
   - single r Hbase.
   - destruct rets as [|t0 [|t1 ts]]; [single r Hbase|single r Hbase|].
     apply Forall_forall. intros s Hs. apply in_map_iff in Hs. destruct Hs as [[i t] [<- _]]. cbn [step_pre].
-    unfold pre_ok, in_services; cbn [ds_key ds_grp ds_reg]. repeat split; [| |exact Hok].
+    unfold pre_ok, in_services; cbn [ds_key ds_grp ds_reg]. split; [|split; [|exact Hok]].
     + destruct i; [apply name_key_services|reflexivity].
     + intros Hk. destruct i; [apply Hn; apply name_key_none; exact Hk|congruence].
-  - apply Forall_forall. intros s Hs. apply in_map_iff in Hs. destruct Hs as [[i f] [<- Hin]]. cbn [step_pre].
-    apply in_combine_r in Hin.
-    unfold pre_ok, in_services; cbn [ds_key ds_grp ds_reg]. repeat split; [apply name_key_services| |exact Hok].
-    intros Hk. apply name_key_none in Hk. unfold reg_ok in Hok. rewrite Ef in Hok. rename Hok into Hfs.
-    rewrite forallb_forall in Hfs. specialize (Hfs f Hin). unfold field_ok in Hfs. apply orb_prop in Hfs.
-    destruct Hfs as [H|H]; apply Nat.eqb_eq in H; congruence.
+  - apply Forall_forall. intros s Hs. apply in_map_iff in Hs. destruct Hs as [[i f] [<- Hin]].
+    destruct (negb (f_name f =? 0) && negb (f_group f =? 0)) eqn:Eb; cbn [step_pre]; [exact I|].
+    unfold pre_ok, in_services; cbn [ds_key ds_grp ds_reg]. split; [apply name_key_services|split; [|apply reg_ok_true]].
+    intros Hk. apply name_key_none in Hk. apply andb_false_elim in Eb.
+    destruct Eb as [E|E]; apply negb_false_iff, Nat.eqb_eq in E; congruence.
 Qed.
 
 Lemma run_steps_J steps : forall c c', J c -> Forall step_pre steps -> run_steps c steps = inl c' -> J c'.
@@ -140,7 +140,7 @@ Proof.
   destruct (is_void r && negb (r_group r =? 0)) eqn:G2; [exact Hj|].
   destruct (is_reserved (form_type (r_form r))); [exact Hj|].
   destruct (run_steps c (add_steps r (S v))) as [c'|e] eqn:Er; [|exact Hj]. cbn [fst].
-  apply (run_steps_J (add_steps r (S v)) c c' Hj); [|exact Er]. apply add_steps_pre. repeat split; [| |exact Hok].
+  apply (run_steps_J (add_steps r (S v)) c c' Hj); [|exact Er]. apply add_steps_pre. split; [|split; [|exact Hok]].
   - intros Hn. apply orb_false_elim in G1. destruct G1 as [G1 _]. apply andb_false_elim in G1.
     destruct G1 as [G|G]; apply negb_false_iff, Nat.eqb_eq in G; congruence.
   - intros Hv. rewrite Hv in G2. cbn [andb] in G2. apply negb_false_iff, Nat.eqb_eq in G2. exact G2.
@@ -172,7 +172,7 @@ Qed.
 Lemma remove_service_J c t k : J c -> J (remove_service c t k).
 Proof.
   intros (Hnd & Ha & Hb & Hc & Hbound). unfold remove_service. destruct (find_service c t k); [|repeat split; assumption].
-  repeat split.
+  split; [|split; [|split; [|split]]].
   - apply rm_nodup; exact Hnd.
   - intros x Hx. apply Ha. exact (rm_in t k c x Hx).
   - intros x Hx. apply Hb. exact (rm_in t k c x Hx).
@@ -236,17 +236,25 @@ Qed.
 Lemma J_wf c : J c -> wf_coll c.
 Proof. intros (Hnd & Ha & Hb & _ & _). repeat split; assumption. Qed.
 
-(* the registry reached by any history of well-formed calls is well-formed *)
-Theorem wf_after_every_history ops : forallb op_ok ops = true -> wf_coll (w_coll (fst (run_from init_world ops))).
-Proof. intros H. apply J_wf. apply (J_invariant ops init_world); [exact J_nil|exact H]. Qed.
+Lemma call_ok_true o : call_ok o = true.
+Proof. destruct o; reflexivity. Qed.
+Lemma op_ok_true o : op_ok o = true.
+Proof. destruct o; try reflexivity. cbn [op_ok]. apply forallb_forall. intros x _. apply call_ok_true. Qed.
+Lemma op_ok_all ops : forallb op_ok ops = true.
+Proof. apply forallb_forall. intros o _. apply op_ok_true. Qed.
 
-(* with the termination theorem: after every history of such calls, whenever the cycle check passes, every
+(* the registry reached by ANY history of calls is well-formed (a result-object field with both a name and a group,
+   which used to break this, is rejected at registration since F33) *)
+Theorem wf_after_every_history ops : wf_coll (w_coll (fst (run_from init_world ops))).
+Proof. apply J_wf. apply (J_invariant ops init_world); [exact J_nil|apply op_ok_all]. Qed.
+
+(* with the termination theorem: after every history of calls, whenever the cycle check passes, every
    resolution ends within a depth that depends on the registrations only *)
-Theorem accepted_histories_resolve_in_bounded_depth ops : forallb op_ok ops = true ->
+Theorem accepted_histories_resolve_in_bounded_depth ops :
   let c := w_coll (fst (run_from init_world ops)) in
   has_cycle c = false ->
   exists N, forall fuel rs h d, N <= fuel -> p_descs (rs_p rs) = c -> In d c -> snd (resolve_d fuel rs h d) <> RFuel.
-Proof. intros Hok c Hac. apply acyclic_collection_terminates; [apply wf_after_every_history; exact Hok|exact Hac]. Qed.
+Proof. intros c Hac. apply acyclic_collection_terminates; [apply wf_after_every_history|exact Hac]. Qed.
 
 (* ------------------------------------------------------------------ groups accumulate members in call order *)
 Definition numbered (c : coll) : Prop :=
@@ -294,6 +302,7 @@ Proof.
     apply Forall_forall. intros s Hs. apply in_map_iff in Hs. destruct Hs as [[i t] [<- _]].
     unfold step_svc, in_services; cbn [ds_key]. destruct i; [apply name_key_services|reflexivity].
   - apply Forall_forall. intros s Hs. apply in_map_iff in Hs. destruct Hs as [[i f] [<- _]].
+    destruct (negb (f_name f =? 0) && negb (f_group f =? 0)); [exact I|].
     unfold step_svc, in_services; cbn [ds_key]. apply name_key_services.
 Qed.
 
@@ -382,12 +391,12 @@ Proof.
     apply andb_prop in Et. destruct Et as [E1 E2]. apply Nat.eqb_eq in E1, E2. subst. congruence.
 Qed.
 
-(* non-vacuity: a history with a result object, a group, keyed services and a removal satisfies the premise *)
+(* non-vacuity: a history with a result object, a group, keyed services and a removal passes the cycle check *)
 Example ok_history_exists :
   let r1 := mkReg 1 Singleton (FInst 0) 0 0 [] [] [0] [false] 0 in
   let r2 := mkReg 2 Scoped (FCtor false [PDep (mkDep 0 0 0 false)] [1] false) 0 3 [] [] [1] [false] 0 in
   let r3 := mkReg 3 Transient (FResult false [PDep (mkDep 1 0 3 false)] [mkField 2 5 0; mkField 3 0 4] false) 0 0 [] [] [2; 3] [false; false] 0 in
   let ops := [OAdd r1; OAdd r2; OAdd r3; ORemove 0; OAdd r1] in
-  forallb op_ok ops = true /\ length (w_coll (fst (run_from init_world ops))) = 4 /\
+  length (w_coll (fst (run_from init_world ops))) = 4 /\
   has_cycle (w_coll (fst (run_from init_world ops))) = false.
 Proof. vm_compute. repeat split. Qed.
